@@ -15,6 +15,7 @@ import Krp.Lemmas.Cw20
 import Krp.Lemmas.Reward
 import Krp.System
 import Krp.Init
+import Krp.Lemmas.Wiring
 namespace Krp
 open Token
 
@@ -268,5 +269,349 @@ theorem C16_drained (t : Token) (rw : RewardSt) (tok r : Addr) (h : Mirror t rw 
 theorem C16_init (hub sender rh : Addr) (d : Denom) (sw : Addr) (ds : List Denom) (tok r : Addr) :
     Mirror (emptyToken true hub) (rewardInit sender rh d sw ds) tok r [] := by
   unfold Mirror; simp [emptyToken, rewardInit]
+
+/-! ### Every reachable state of the composed system
+
+  The queue steps above are now run through the real message executor.  Hypotheses, all of them
+  E3 ("trusted owner configuration"): the six contracts are wired to each other, owners and
+  nominees are outside accounts, and the top-level messages of the history come from outside
+  accounts other than those owners / nominees (so nobody reconfigures).  Conclusion: after every
+  transaction of every such history — whatever else happens: bonds, unbonds, converts, transfers
+  through allowances, failed transactions, slashing, index updates, validator removal — the reward
+  contract's per-holder balances and total are exactly the bSei ledger's balances and supply. -/
+
+theorem incAmt_from (tok r a : Addr) (m : Msg) (h : m.sentFrom ≠ tok) :
+    incAmt tok r a m = 0 ∧ decAmt tok r a m = 0 ∧ incAmtAll tok r m = 0 ∧ decAmtAll tok r m = 0 := by
+  cases m with
+  | wasm s t c f =>
+    have hs : s ≠ tok := h
+    cases c with
+    | reward rm =>
+      cases rm <;> simp [incAmt, decAmt, incAmtAll, decAmtAll, hs]
+    | _ => simp [incAmt, decAmt, incAmtAll, decAmtAll]
+  | _ => simp [incAmt, decAmt, incAmtAll, decAmtAll]
+
+theorem incAmt_target (tok r a s t : Addr) (c : Call) (f : List (Denom × Nat)) (h : t ≠ r) :
+    incAmt tok r a (.wasm s t c f) = 0 ∧ decAmt tok r a (.wasm s t c f) = 0 ∧
+    incAmtAll tok r (.wasm s t c f) = 0 ∧ decAmtAll tok r (.wasm s t c f) = 0 := by
+  cases c with
+  | reward rm => cases rm <;> simp [incAmt, decAmt, incAmtAll, decAmtAll, h]
+  | _ => simp [incAmt, decAmt, incAmtAll, decAmtAll]
+
+theorem incOf_from (tok r : Addr) (q : List Msg) (h : ∀ x ∈ q, x.sentFrom ≠ tok) :
+    (∀ a, incOf tok r a q = 0 ∧ decOf tok r a q = 0) ∧ incAll tok r q = 0 ∧ decAll tok r q = 0 := by
+  induction q with
+  | nil => simp
+  | cons m rest ih =>
+    have hm := fun a => incAmt_from tok r a m (h m (List.mem_cons_self ..))
+    have hr := ih (fun x hx => h x (List.mem_cons_of_mem _ hx))
+    refine ⟨fun a => ?_, ?_, ?_⟩
+    · simp only [incOf_cons, decOf_cons, (hm a).1, (hm a).2.1, (hr.1 a).1, (hr.1 a).2]; simp
+    · simp only [incAll_cons, (hm 0).2.2.1, hr.2.1]
+    · simp only [decAll_cons, (hm 0).2.2.2, hr.2.2]
+
+/-- a step that touches neither ledger, handles a head message that is not a mirror message, and
+    emits only messages not sent by the token, keeps the link -/
+theorem Mirror.frame {t : Token} {rw rw' : RewardSt} {tok r : Addr} {m : Msg} {subs rest : List Msg}
+    (hb : ∀ a, rw'.hBal a = rw.hBal a) (htot : rw'.totalBalance = rw.totalBalance)
+    (hm : ∀ a, incAmt tok r a m = 0 ∧ decAmt tok r a m = 0 ∧ incAmtAll tok r m = 0 ∧ decAmtAll tok r m = 0)
+    (hs : ∀ x ∈ subs, x.sentFrom ≠ tok) (h : Mirror t rw tok r (m :: rest)) :
+    Mirror t rw' tok r (subs ++ rest) := by
+  have z := incOf_from tok r subs hs
+  unfold Mirror at *
+  simp only [decOf_cons, incOf_cons, decAll_cons, incAll_cons] at h
+  refine ⟨fun a => ?_, ?_⟩
+  · have := h.1 a
+    rw [decOf_append, incOf_append, (z.1 a).1, (z.1 a).2, hb a]
+    rw [(hm a).1, (hm a).2.1] at this
+    omega
+  · have := h.2
+    rw [decAll_append, incAll_append, z.2.1, z.2.2, htot]
+    rw [(hm 0).2.2.1, (hm 0).2.2.2] at this
+    omega
+
+/-- reward-contract messages other than Increase / Decrease leave every mirrored balance alone -/
+theorem reward_other_keeps (r r' : RewardSt) (self : Addr) (tok dsp : Res Addr) (bal : Denom → Nat)
+    (sender : Addr) (m : RewMsg) (ms : List Msg)
+    (hne : (∀ a amt, m ≠ .increase a amt) ∧ (∀ a amt, m ≠ .decrease a amt))
+    (hx : rewardExec r self tok dsp bal sender m = .ok (r', ms)) :
+    (∀ a, r'.hBal a = r.hBal a) ∧ r'.totalBalance = r.totalBalance := by
+  cases m with
+  | increase a amt => exact absurd rfl (hne.1 a amt)
+  | decrease a amt => exact absurd rfl (hne.2 a amt)
+  | claim rcp =>
+    simp only [rewardExec] at hx; exc_norm at hx; exc_split at hx
+    refine ⟨fun a => ?_, rfl⟩
+    simp only [RewardSt.setHolder, upd]
+    split
+    · rename_i h; rw [h]
+    · rfl
+  | _ => simp only [rewardExec] at hx <;> exc_norm at hx <;> exc_split at hx <;> exact ⟨fun _ => rfl, rfl⟩
+
+/-- the six owner / nominee addresses of a state -/
+def ownersOf (s : Sys) : List Addr :=
+  [s.hub.creator, s.hub.newOwner, s.disp.owner, s.disp.newOwner, s.reward.owner, s.reward.newOwner]
+
+/-- everything the lift carries from message to message -/
+structure MirrorInv (o : List Addr) (s : Sys) (q : List Msg) : Prop where
+  wired : Wired s
+  wf : s.bsei.WF
+  owners : ownersOf s = o
+  mirror : Mirror s.bsei s.reward bseiA rewardA q
+  senders : ∀ m ∈ q, ∀ a b c d, m = .wasm a b c d → a ∉ o
+
+theorem internal_not_owner {s : Sys} (w : Wired s) (a : Addr) (ha : a ∈ internal) : a ∉ ownersOf s := by
+  intro hm
+  simp only [ownersOf, List.mem_cons, List.mem_nil_iff, or_false] at hm
+  rcases hm with h | h | h | h | h | h
+  · exact w.hubOwner (h ▸ ha)
+  · exact w.hubNominee (h ▸ ha)
+  · exact w.dispOwner (h ▸ ha)
+  · exact w.dispNominee (h ▸ ha)
+  · exact w.rwOwner (h ▸ ha)
+  · exact w.rwNominee (h ▸ ha)
+
+theorem MirrorInv.step (o : List Addr) (s s' : Sys) (m : Msg) (rest subs : List Msg)
+    (inv : MirrorInv o s (m :: rest)) (hx : s.handle m = .ok (s', subs)) :
+    MirrorInv o s' (subs ++ rest) := by
+  have w := inv.wired
+  -- the head's sender is none of the owners
+  have hsender : ∀ a b c d, m = .wasm a b c d →
+      a ≠ s.hub.creator ∧ a ≠ s.hub.newOwner ∧ a ≠ s.disp.owner ∧ a ≠ s.disp.newOwner ∧
+      a ≠ s.reward.owner ∧ a ≠ s.reward.newOwner := by
+    intro a b c d hm
+    have := inv.senders m (List.mem_cons_self ..) a b c d hm
+    rw [← inv.owners] at this
+    simp only [ownersOf, List.mem_cons, List.mem_nil_iff, or_false, not_or] at this
+    exact this
+  have w' : Wired s' := handle_wired s s' m subs w inv.wf hx hsender
+  -- owners unchanged (they are part of the wiring argument: no owner message succeeded)
+  have sent := handle_sentBy s s' m subs hx
+  have restSenders : ∀ x ∈ rest, ∀ a b c d, x = .wasm a b c d → a ∉ o :=
+    fun x hx' => inv.senders x (List.mem_cons_of_mem _ hx')
+  cases handle_touch s s' m subs hx with
+  | none h hm hs =>
+    have own : ownersOf s' = o := by rw [← inv.owners]; simp only [ownersOf, h.hub, h.disp, h.reward]
+    refine ⟨w', by rw [h.bsei]; exact inv.wf, own, ?_, ?_⟩
+    · rw [h.bsei, h.reward]
+      refine Mirror.frame (fun _ => rfl) rfl ?_ ?_ inv.mirror
+      · intro a
+        rcases hm with hm | ⟨a', b', c', d', heq, ht⟩
+        · cases m with
+          | wasm a1 b1 c1 d1 => exact absurd rfl (hm a1 b1 c1 d1)
+          | _ => simp [incAmt, decAmt, incAmtAll, decAmtAll]
+        · subst heq
+          apply incAmt_target
+          rcases ht with ht | ht <;> rw [ht] <;> decide
+      · intro x hx'; rw [hs x hx']; decide
+    · intro x hx' a b c d hxe
+      rcases List.mem_append.mp hx' with hin | hin
+      · have : a = swapA := by have := hs x hin; rw [hxe] at this; exact this
+        rw [← own]; exact internal_not_owner w' a (by rw [this]; simp [internal])
+      · exact restSenders x hin a b c d hxe
+  | hub e sender funds hm heq he hx' b t r d g =>
+    have cfg : HubSt.SameConfig s.hub s'.hub := by
+      rcases hubExec_config _ _ _ _ _ _ _ hx' with c | c | c
+      · exact c
+      · exact absurd c (hsender _ _ _ _ heq).1
+      · exact absurd c (hsender _ _ _ _ heq).2.1
+    have own : ownersOf s' = o := by
+      rw [← inv.owners]; simp only [ownersOf, cfg.creator, cfg.newOwner, d, r]
+    have sb : SentBy hubA subs := (sent.1 _ _ _ _ heq)
+    refine ⟨w', by rw [b]; exact inv.wf, own, ?_, ?_⟩
+    · rw [b, r]
+      refine Mirror.frame (fun _ => rfl) rfl ?_ ?_ inv.mirror
+      · intro a; subst heq; exact incAmt_target _ _ _ _ _ _ _ (by decide)
+      · intro x hx'; rw [sb x hx']; decide
+    · intro x hx' a b' c d' hxe
+      rcases List.mem_append.mp hx' with hin | hin
+      · have : a = hubA := by have := sb x hin; rw [hxe] at this; exact this
+        rw [← own]; exact internal_not_owner w' a (by rw [this]; simp [internal])
+      · exact restSenders x hin a b' c d' hxe
+  | bsei s1 sender funds tm heq h1 hx' h t r d g =>
+    have w1 : Wired s1 := w.of_same h1
+    rw [w1.rewardAddr] at hx'
+    have own : ownersOf s' = o := by rw [← inv.owners]; simp only [ownersOf, h, d, r]
+    have sb : SentBy bseiA subs := (sent.1 _ _ _ _ heq)
+    have st := C18_bsei_step _ _ _ _ _ _ _ _ _ inv.wf hx'
+    refine ⟨w', st.2.1, own, ?_, ?_⟩
+    · rw [r]
+      have hmir := inv.mirror
+      rw [heq] at hmir
+      exact C16_queue_step_token _ _ _ _ _ _ _ _ _ _ _ _ hmir hx'
+    · intro x hx'' a b' c d' hxe
+      rcases List.mem_append.mp hx'' with hin | hin
+      · have : a = bseiA := by have := sb x hin; rw [hxe] at this; exact this
+        rw [← own]; exact internal_not_owner w' a (by rw [this]; simp [internal])
+      · exact restSenders x hin a b' c d' hxe
+  | stsei blk sender funds tm heq hx' h b r d g =>
+    have own : ownersOf s' = o := by rw [← inv.owners]; simp only [ownersOf, h, d, r]
+    have sb : SentBy stseiA subs := (sent.1 _ _ _ _ heq)
+    refine ⟨w', by rw [b]; exact inv.wf, own, ?_, ?_⟩
+    · rw [b, r]
+      refine Mirror.frame (fun _ => rfl) rfl ?_ ?_ inv.mirror
+      · intro a; subst heq; exact incAmt_target _ _ _ _ _ _ _ (by decide)
+      · intro x hx'; rw [sb x hx']; decide
+    · intro x hx'' a b' c d' hxe
+      rcases List.mem_append.mp hx'' with hin | hin
+      · have : a = stseiA := by have := sb x hin; rw [hxe] at this; exact this
+        rw [← own]; exact internal_not_owner w' a (by rw [this]; simp [internal])
+      · exact restSenders x hin a b' c d' hxe
+  | reward s1 sender funds rm heq h1 hx' h b t d g =>
+    have w1 : Wired s1 := w.of_same h1
+    rw [w1.tokenOf] at hx'
+    have cfg : s'.reward.owner = s.reward.owner ∧ s'.reward.newOwner = s.reward.newOwner := by
+      rcases rewardExec_config _ _ _ _ _ _ _ _ _ hx' with c | c | c
+      · exact ⟨c.2.1, c.2.2⟩
+      · exact absurd c (hsender _ _ _ _ heq).2.2.2.2.1
+      · exact absurd c (hsender _ _ _ _ heq).2.2.2.2.2
+    have own : ownersOf s' = o := by rw [← inv.owners]; simp only [ownersOf, h, d, cfg.1, cfg.2]
+    have sb : SentBy rewardA subs := (sent.1 _ _ _ _ heq)
+    refine ⟨w', by rw [b]; exact inv.wf, own, ?_, ?_⟩
+    · rw [b]
+      have hmir := inv.mirror
+      rw [heq] at hmir
+      -- a mirror message must come from the token
+      have fromTok : ∀ a amt, (rm = .increase a amt ∨ rm = .decrease a amt) → sender = bseiA := by
+        intro a amt hrm
+        rcases hrm with hrm | hrm <;> subst hrm <;>
+          (simp only [rewardExec] at hx'; exc_norm at hx'; split at hx'
+           · cases hx'
+           · rename_i hs; exact Classical.not_not.mp hs)
+      by_cases hi : ∃ a amt, rm = .increase a amt
+      · obtain ⟨a, amt, hrm⟩ := hi
+        have hsb := fromTok a amt (Or.inl hrm)
+        subst hrm; subst hsb
+        exact C16_queue_step_reward s.bsei s.reward s'.reward rewardA bseiA _ _ a amt true funds subs rest hmir hx'
+      · by_cases hd : ∃ a amt, rm = .decrease a amt
+        · obtain ⟨a, amt, hrm⟩ := hd
+          have hsb := fromTok a amt (Or.inr hrm)
+          subst hrm; subst hsb
+          exact C16_queue_step_reward s.bsei s.reward s'.reward rewardA bseiA _ _ a amt false funds subs rest hmir hx'
+        · have hne : (∀ a amt, rm ≠ .increase a amt) ∧ (∀ a amt, rm ≠ .decrease a amt) :=
+            ⟨fun a amt e => hi ⟨a, amt, e⟩, fun a amt e => hd ⟨a, amt, e⟩⟩
+          have keep := reward_other_keeps _ _ _ _ _ _ _ _ _ hne hx'
+          refine Mirror.frame keep.1 keep.2 ?_ ?_ hmir
+          · intro a
+            cases rm with
+            | increase a' amt => exact absurd rfl (hne.1 a' amt)
+            | decrease a' amt => exact absurd rfl (hne.2 a' amt)
+            | _ => simp [incAmt, decAmt, incAmtAll, decAmtAll]
+          · intro x hx''; rw [sb x hx'']; decide
+    · intro x hx'' a b' c d' hxe
+      rcases List.mem_append.mp hx'' with hin | hin
+      · have : a = rewardA := by have := sb x hin; rw [hxe] at this; exact this
+        rw [← own]; exact internal_not_owner w' a (by rw [this]; simp [internal])
+      · exact restSenders x hin a b' c d' hxe
+  | disp env sender funds dm heq hx' h b t r g =>
+    have cfg : s'.disp.owner = s.disp.owner ∧ s'.disp.newOwner = s.disp.newOwner := by
+      rcases dispExec_config _ _ _ _ _ _ _ hx' with c | c | c
+      · exact ⟨c.2.1, c.2.2⟩
+      · exact absurd c (hsender _ _ _ _ heq).2.2.1
+      · exact absurd c (hsender _ _ _ _ heq).2.2.2.1
+    have own : ownersOf s' = o := by rw [← inv.owners]; simp only [ownersOf, h, r, cfg.1, cfg.2]
+    have sb : SentBy dispA subs := (sent.1 _ _ _ _ heq)
+    refine ⟨w', by rw [b]; exact inv.wf, own, ?_, ?_⟩
+    · rw [b, r]
+      refine Mirror.frame (fun _ => rfl) rfl ?_ ?_ inv.mirror
+      · intro a; subst heq; exact incAmt_target _ _ _ _ _ _ _ (by decide)
+      · intro x hx'; rw [sb x hx']; decide
+    · intro x hx'' a b' c d' hxe
+      rcases List.mem_append.mp hx'' with hin | hin
+      · have : a = dispA := by have := sb x hin; rw [hxe] at this; exact this
+        rw [← own]; exact internal_not_owner w' a (by rw [this]; simp [internal])
+      · exact restSenders x hin a b' c d' hxe
+  | reg s1 sender funds rm heq h1 hx' h b t r d =>
+    have own : ownersOf s' = o := by rw [← inv.owners]; simp only [ownersOf, h, d, r]
+    have sb : SentBy regA subs := (sent.1 _ _ _ _ heq)
+    refine ⟨w', by rw [b]; exact inv.wf, own, ?_, ?_⟩
+    · rw [b, r]
+      refine Mirror.frame (fun _ => rfl) rfl ?_ ?_ inv.mirror
+      · intro a; subst heq; exact incAmt_target _ _ _ _ _ _ _ (by decide)
+      · intro x hx'; rw [sb x hx']; decide
+    · intro x hx'' a b' c d' hxe
+      rcases List.mem_append.mp hx'' with hin | hin
+      · have : a = regA := by have := sb x hin; rw [hxe] at this; exact this
+        rw [← own]; exact internal_not_owner w' a (by rw [this]; simp [internal])
+      · exact restSenders x hin a b' c d' hxe
+
+/-- a history step allowed under E3: an environment event, or a top-level contract call by an outside
+    account that is none of the owners / nominees in `o` -/
+def QuietStep (o : List Addr) : Step → Prop
+  | .env _ => True
+  | .tx m => ∃ a b c d, m = .wasm a b c d ∧ External a ∧ a ∉ o
+
+/-- **Every reachable state.** -/
+theorem C16_reachable (s : Sys) (l : List Step)
+    (w : Wired s) (wf : s.bsei.WF) (hm : Mirror s.bsei s.reward bseiA rewardA [])
+    (hq : ∀ st ∈ l, QuietStep (ownersOf s) st) :
+    (∀ a, (s.steps l).reward.hBal a = (s.steps l).bsei.bal a) ∧
+    (s.steps l).reward.totalBalance = (s.steps l).bsei.supply := by
+  have key : ∀ (l : List Step) (x : Sys), MirrorInv (ownersOf s) x [] →
+      (∀ st ∈ l, QuietStep (ownersOf s) st) → MirrorInv (ownersOf s) (x.steps l) [] := by
+    intro l
+    induction l with
+    | nil => intro x hx _; exact hx
+    | cons st rest ih =>
+      intro x inv hq'
+      show MirrorInv (ownersOf s) ((x.step st).steps rest) []
+      apply ih _ _ (fun st' h' => hq' st' (List.mem_cons_of_mem _ h'))
+      have hst := hq' st (List.mem_cons_self ..)
+      cases st with
+      | env e =>
+        show MirrorInv (ownersOf s) (x.env e) []
+        have of_sc : ∀ e', SameContracts x (x.env e') → MirrorInv (ownersOf s) (x.env e') [] := by
+          intro e' sc
+          exact ⟨inv.wired.of_same sc, by rw [sc.bsei]; exact inv.wf,
+            by rw [← inv.owners]; simp only [ownersOf, sc.hub, sc.disp, sc.reward],
+            by rw [sc.bsei, sc.reward]; exact inv.mirror, inv.senders⟩
+        cases e with
+        | seedLegacy u b a =>
+          exact ⟨⟨inv.wired.tokHub, inv.wired.hubDisp, inv.wired.dispRw, inv.wired.rwHub, inv.wired.hubTok,
+            inv.wired.hubOwner, inv.wired.hubNominee, inv.wired.dispOwner, inv.wired.dispNominee,
+            inv.wired.rwOwner, inv.wired.rwNominee⟩, inv.wf, inv.owners, inv.mirror, inv.senders⟩
+        | advance dt => exact of_sc _ (env_same x _ (by intro u b a h; cases h))
+        | slash v n d => exact of_sc _ (env_same x _ (by intro u b a h; cases h))
+        | slashUnbonding v n d => exact of_sc _ (env_same x _ (by intro u b a h; cases h))
+        | accrue v d a => exact of_sc _ (env_same x _ (by intro u b a h; cases h))
+        | donate a d n => exact of_sc _ (env_same x _ (by intro u b a h; cases h))
+        | blockRedelegation v on => exact of_sc _ (env_same x _ (by intro u b a h; cases h))
+        | oracle ok p => exact of_sc _ (env_same x _ (by intro u b a h; cases h))
+        | swap ok p => exact of_sc _ (env_same x _ (by intro u b a h; cases h))
+      | tx m =>
+        obtain ⟨a, b, c, d, hm', hext, hno⟩ := hst
+        show MirrorInv (ownersOf s) (x.exec m).1 []
+        unfold Sys.exec
+        split
+        · rename_i x' hrun
+          refine run_inv2 (MirrorInv (ownersOf s)) (fun s0 m0 rest0 s1 subs0 => MirrorInv.step _ s0 s1 m0 rest0 subs0)
+            400 x [m] x' ?_ hrun
+          refine ⟨inv.wired, inv.wf, inv.owners, ?_, ?_⟩
+          · have z := incAmt_from bseiA rewardA 0 m (by rw [hm']; intro h; apply hext; have h2 : a = bseiA := h; rw [h2]; simp [internal])
+            have hmi := inv.mirror
+            unfold Mirror at *
+            simp only [decOf_cons, incOf_cons, decAll_cons, incAll_cons, decOf_nil, incOf_nil, decAll_nil, incAll_nil] at *
+            refine ⟨fun a' => ?_, ?_⟩
+            · have z' := incAmt_from bseiA rewardA a' m (by rw [hm']; intro h; apply hext; have h2 : a = bseiA := h; rw [h2]; simp [internal])
+              rw [z'.1, z'.2.1]; exact hmi.1 a'
+            · rw [z.2.2.1, z.2.2.2]; exact hmi.2
+          · intro m1 hm1 a1 b1 c1 d1 he1
+            simp only [List.mem_cons, List.mem_nil_iff, or_false] at hm1
+            subst hm1
+            rw [hm'] at he1; injection he1 with e1 _ _ _
+            rw [← e1]; exact hno
+        · exact inv
+  have fin := key l s ⟨w, wf, rfl, hm, fun _ h => by cases h⟩ hq
+  exact C16_drained _ _ _ _ fin.mirror
+
+/-! Non-vacuity: the genesis state of the corpus satisfies every premise of `C16_reachable`, and a
+    user's bond is a `QuietStep`. -/
+example : Wired genesisSys := by
+  refine ⟨rfl, rfl, rfl, rfl, rfl, ?_, ?_, ?_, ?_, ?_, ?_⟩ <;> (unfold External; decide)
+example : genesisSys.bsei.WF := (C18_init_wf true hubA [] _ rfl).1
+example : Mirror genesisSys.bsei genesisSys.reward bseiA rewardA [] :=
+  C16_init hubA 1 hubA 1 swapA [0, 1] bseiA rewardA
+example : QuietStep (ownersOf genesisSys) (.tx (.wasm 5 hubA (.hub .bond) [(0, 1000)])) :=
+  ⟨5, hubA, _, _, rfl, by unfold External; decide, by decide⟩
 
 end Krp
